@@ -3,7 +3,10 @@
 #include "ops.hpp"
 
 #include <complex>
+#include <algorithm>
 #include <cstring>
+#include <string>
+#include <type_traits>
 #include <utility>
 
 #include <xsimd/xsimd.hpp>
@@ -187,6 +190,25 @@ namespace c04
                         ix[i] = (I)c.idx[i];
                     IB index = from_bytes<IB>((const unsigned char*)ix);
                     from_bytes<B>(c.reg_in).scatter((T*)c.p, index); });
+            add("batch::gather(unsigned index)", K_GATHER, EL, [](Ctx& c)
+                {
+                    using UI = typename std::make_unsigned<I>::type;
+                    UI ix[B::size];
+                    for (size_t i = 0; i < B::size; ++i)
+                        ix[i] = (UI)c.idx[i];
+                    xsimd::batch<UI, A> index = from_bytes<xsimd::batch<UI, A>>((const unsigned char*)ix);
+                    B b = B::gather((const T*)c.p, index);
+                    to_bytes(c.reg_out, b); });
+            out.back().idx_unsigned = true;
+            add("batch::scatter(unsigned index)", K_SCATTER, EL, [](Ctx& c)
+                {
+                    using UI = typename std::make_unsigned<I>::type;
+                    UI ix[B::size];
+                    for (size_t i = 0; i < B::size; ++i)
+                        ix[i] = (UI)c.idx[i];
+                    xsimd::batch<UI, A> index = from_bytes<xsimd::batch<UI, A>>((const unsigned char*)ix);
+                    from_bytes<B>(c.reg_in).scatter((T*)c.p, index); });
+            out.back().idx_unsigned = true;
             // ---------------- lane numbering by-products (no memory access of their own)
             add("batch::broadcast", K_BROADCAST, EL, [](Ctx& c)
                 {
@@ -214,6 +236,70 @@ namespace c04
                     memcpy(&v, c.aux_in, sizeof(T));
                     insert_all<B, T>(b, v, c.aux, std::make_index_sequence<B::size>()); });
 #undef GETS
+        }
+
+        // converting loads/stores and gathers/scatters: memory holds U, the register holds T. The harness fills memory / the register
+        // with small integers that both types represent exactly, so the only things judged are the footprint and lane i <-> element i.
+        template <class T, class U>
+        void add_cvt(std::vector<OpEntry>& out)
+        {
+            using B = xsimd::batch<T, A>;
+            using I = typename sint<sizeof(T)>::type;
+            using IB = xsimd::batch<I, A>;
+            const int L = (int)B::size;
+            const int E = (int)sizeof(T);
+            const int AL = (int)std::max<size_t>(A::alignment(), alignof(U));
+            const int EL = (int)alignof(U);
+            const bool F = std::is_floating_point<T>::value;
+            static std::vector<std::string> names; // keeps the form strings alive
+            auto add = [&](const std::string& form, Kind k, int align_req, void (*fn)(Ctx&))
+            {
+                names.reserve(16);
+                names.push_back(form + "[mem=" + tn<U>::name() + "]");
+                OpEntry e { C04_ARCHNAME, tn<T>::name(), nullptr, k, L, E, align_req, F, fn };
+                e.mem_tname = tn<U>::name();
+                e.mem_elem = (int)sizeof(U);
+                out.push_back(e);
+            };
+            add("batch::load_aligned", K_CVT_LOAD, AL, [](Ctx& c)
+                { B b = B::load_aligned((const U*)c.p); to_bytes(c.reg_out, b); });
+            add("batch::load_unaligned", K_CVT_LOAD, EL, [](Ctx& c)
+                { B b = B::load_unaligned((const U*)c.p); to_bytes(c.reg_out, b); });
+            add("batch::load(aligned_mode)", K_CVT_LOAD, AL, [](Ctx& c)
+                { B b = B::load((const U*)c.p, xsimd::aligned_mode {}); to_bytes(c.reg_out, b); });
+            add("xsimd::load_as(aligned_mode)", K_CVT_LOAD, AL, [](Ctx& c)
+                { B b = xsimd::load_as<T, A>((const U*)c.p, xsimd::aligned_mode {}); to_bytes(c.reg_out, b); });
+            add("xsimd::load_as(unaligned_mode)", K_CVT_LOAD, EL, [](Ctx& c)
+                { B b = xsimd::load_as<T, A>((const U*)c.p, xsimd::unaligned_mode {}); to_bytes(c.reg_out, b); });
+            add("batch::store_aligned", K_CVT_STORE, AL, [](Ctx& c)
+                { from_bytes<B>(c.reg_in).store_aligned((U*)c.p); });
+            add("batch::store_unaligned", K_CVT_STORE, EL, [](Ctx& c)
+                { from_bytes<B>(c.reg_in).store_unaligned((U*)c.p); });
+            add("batch::store(unaligned_mode)", K_CVT_STORE, EL, [](Ctx& c)
+                { from_bytes<B>(c.reg_in).store((U*)c.p, xsimd::unaligned_mode {}); });
+            add("xsimd::store_as(aligned_mode)", K_CVT_STORE, AL, [](Ctx& c)
+                { xsimd::store_as((U*)c.p, from_bytes<B>(c.reg_in), xsimd::aligned_mode {}); });
+            add("xsimd::store_as(unaligned_mode)", K_CVT_STORE, EL, [](Ctx& c)
+                { xsimd::store_as((U*)c.p, from_bytes<B>(c.reg_in), xsimd::unaligned_mode {}); });
+            add("batch::gather", K_CVT_GATHER, EL, [](Ctx& c)
+                {
+                    I ix[B::size];
+                    for (size_t i = 0; i < B::size; ++i)
+                        ix[i] = (I)c.idx[i];
+                    IB index = from_bytes<IB>((const unsigned char*)ix);
+                    B b = B::gather((const U*)c.p, index);
+                    to_bytes(c.reg_out, b); });
+            add("batch::scatter", K_CVT_SCATTER, EL, [](Ctx& c)
+                {
+                    I ix[B::size];
+                    for (size_t i = 0; i < B::size; ++i)
+                        ix[i] = (I)c.idx[i];
+                    IB index = from_bytes<IB>((const unsigned char*)ix);
+                    from_bytes<B>(c.reg_in).scatter((U*)c.p, index); });
+            // fix up the form pointers (the vector was reserved, so the strings did not move)
+            size_t n = 12;
+            for (size_t k = 0; k < n; ++k)
+                out[out.size() - n + k].form = names[names.size() - n + k].c_str();
         }
 
         template <class T>
@@ -277,5 +363,28 @@ namespace c04
         add_type<double>(out);
         add_complex<float>(out);
         add_complex<double>(out);
+        // converting forms (register T <- memory U): same-size pairs take the fast_cast path where the ISA has one, the others the scratch-buffer path
+        add_cvt<float, int32_t>(out);
+        add_cvt<float, double>(out);
+        add_cvt<float, int16_t>(out);
+        add_cvt<float, uint8_t>(out);
+        add_cvt<double, int64_t>(out);
+        add_cvt<double, float>(out);
+        add_cvt<double, int32_t>(out);
+        add_cvt<int32_t, float>(out);
+        add_cvt<int32_t, double>(out);
+        add_cvt<int32_t, int8_t>(out);
+        add_cvt<int32_t, uint16_t>(out);
+        add_cvt<int32_t, int64_t>(out);
+        add_cvt<uint32_t, float>(out);
+        add_cvt<uint32_t, uint8_t>(out);
+        add_cvt<int64_t, double>(out);
+        add_cvt<int64_t, int32_t>(out);
+        add_cvt<uint64_t, uint32_t>(out);
+        add_cvt<int16_t, int8_t>(out);
+        add_cvt<int16_t, int32_t>(out);
+        add_cvt<uint16_t, uint8_t>(out);
+        add_cvt<uint8_t, int32_t>(out);
+        add_cvt<int8_t, int64_t>(out);
     }
 }
